@@ -29,3 +29,4 @@ def check(ctx):
     ctx.floor("BASIS-rate", 4)
     ctx.floor("BASIS-table", 3)
     adapter.noise_source(ctx)
+    dispatch.hamiltonian_type_table(ctx)
